@@ -158,6 +158,10 @@ func (p parser) transform(n *yaml.Node) (Node, error) {
 
 	contents := make([]Node, len(n.Content))
 	for i, subNode := range n.Content {
+		if t == TypeIDMap && i%2 == 0 && subNode.Kind != yaml.ScalarNode {
+			// Map keys are looked up by their string value, so only scalars can be keys.
+			return nil, fmt.Errorf("unsupported non-scalar map key on line %d", subNode.Line)
+		}
 		subContent, err := p.transform(subNode)
 		if err != nil {
 			return nil, err
